@@ -47,7 +47,12 @@ func genC16Message(r *Rand) []byte {
 		}
 		return []byte(strings.Join(parts, "|"))
 	}
-	switch r.Intn(14) {
+	switch r.Intn(16) {
+	case 14, 15:
+		if r.Bool(0.5) {
+			return join("REMOTE|srv", 1+r.Intn(6)) // padded / odd percentage and count fields
+		}
+		return []byte(fmt.Sprintf("REMOTE|srv|%3d|%d|f.log|line\n", r.Intn(101), r.Intn(50)))
 	case 0, 1:
 		return join("REMOTE", r.Intn(10))
 	case 2:
@@ -66,6 +71,17 @@ func genC16Message(r *Rand) []byte {
 		return []byte(PickOf(r, "AGGREGATE", "AGGREGATE|", "AGGREGATE|srv", "AGGREGATE|srv|", "AGGREGATE|srv|k", "AGGREGATE|srv|k∥", "AGGREGATE|srv|k∥x∥count(x)≔1∥",
 			"AGGREGATE|srv|k∥3∥", "AGGREGATE|srv|k∥3∥count(x)∥", "AGGREGATE|srv|k∥3∥≔∥", "AGGREGATE|srv|k∥3∥count(x)≔notanumber∥", "AGGREGATE|srv|k∥-1∥count(x)≔1∥",
 			"AGGREGATE|srv|∥∥∥∥", "AGGREGATE|srv|k∥99999999999999999999∥count(x)≔1∥", "AGGREGATE|srv|k∥3∥count(x)≔1e999∥sum(x)≔NaN∥", "A", "AB", "A|"))
+	case 13: // AGGREGATE payloads assembled structurally: any number of ∥-separated parts
+		np := r.Intn(7)
+		parts := []string{PickOf(r, "k", "", "G1,G2", "web01")}
+		for i := 0; i < np; i++ {
+			parts = append(parts, PickOf(r, "3", "", "x", "-1", "count(x)≔2", "sum(x)≔1.5", "last(y)≔v", "≔", "count(x)≔", "≔7", "count(x)≔2≔3", "0", "99999999999999999999"))
+		}
+		p := strings.Join(parts, "∥")
+		if r.Bool(0.5) {
+			p += "∥"
+		}
+		return []byte(PickOf(r, "AGGREGATE|srv|", "AGGREGATE|srv|", "AGGREGATE||", "AGGREGATE|") + p)
 	case 9: // arbitrary bytes
 		n := r.Range(1, 60)
 		b := make([]byte, n)
